@@ -78,7 +78,7 @@ def value_check(case):
         e.set_target_idx(targets)
     res = simplify(e.copy())
     # build_term constructs V and f with bra-ket symmetry in either case
-    m = Model(orbital_space(1, 1), seed=33, braket={"V": 1, "f": 1})
+    m = Model(orbital_space(1, 1), seed=33, braket={"V": 1, "f": 1, "K": -1})
     for asg in all_assignments(targets, m.orbs):
         v0, v1 = evaluate(e.sympy, asg, m), evaluate(res.sympy, asg, m)
         if v0 != v1:
@@ -129,7 +129,7 @@ def merge_check(case):
     if n > 1:
         return False, (f"alpha equivalent terms were not combined: simplify({e}) = {res} "
                        f"({n} terms)")
-    m = Model(orbital_space(1, 1), seed=33, braket={"V": 1, "f": 1})
+    m = Model(orbital_space(1, 1), seed=33, braket={"V": 1, "f": 1, "K": -1})
     for asg in all_assignments(targets, m.orbs, limit=8, rng=rng):
         v0, v1 = evaluate(e.sympy, asg, m), evaluate(res.sympy, asg, m)
         if v0 != v1:
